@@ -52,6 +52,64 @@ def check(name, specs, case, viol, lattice=True):
                      'lattice': lattice, 'observed': bad[1], 'expected': bad[2]})
 
 
+def check_blend(case, viol):
+    """resampling classes with an image order >= 1: every mask-type target keeps the image's shape and holds input mask
+    values only (mask ids are multiples of 97: a blend of two of them is not)"""
+    import copy
+    A = R.A
+    shape = tuple(case['shape'])
+    H, W, D = shape
+    lab = R.labelled(shape, 'int32')
+    mask = (lab * 97).astype('int32')
+    data = dict(image=lab.astype('float32') / float(lab.max()), mask=mask, masks=[mask.copy(), mask.copy()], mask2=mask.copy())
+    ckw = {'additional_targets': {'mask2': 'mask'}}
+    if case['needs'] == 'bboxes':
+        data['bboxes'] = [(1.0, 1.0, 1.0, W - 1.0, H - 1.0, D - 1.0, 'a')]
+        ckw['bbox_params'] = A.BboxParams('pascal_voc_3d')
+    if case['needs'] == 'dicom':
+        data['dicom'] = {'PixelSpacing': (0.7, 0.4), 'RescaleIntercept': -1024.0, 'RescaleSlope': 1.0,
+                         'ConvolutionKernel': 'STANDARD', 'XRayTubeCurrent': 160}
+    try:
+        pipe = A.Compose([getattr(A, case['cls'])(p=1.0, **case['args'])], **ckw)
+        R.seed(case['seed'])
+        res = pipe(**copy.deepcopy(data))
+    except Exception:  # noqa -- C08's question
+        return
+    img = res['image']
+    for k, m in (('mask', res['mask']), ('masks[0]', res['masks'][0]), ('masks[1]', res['masks'][1]), ('mask2', res['mask2'])):
+        if m.shape[:3] != img.shape[:3]:
+            viol.append({'site': 'C01:%s:%s' % (case['cls'], k), 'kind': 'blend', 'case': case, 'observed': 'shape %s' % (m.shape,),
+                         'expected': 'the image shape %s' % (img.shape[:3],)})
+            return
+        bad = np.asarray(m).astype(np.int64) % 97 != 0
+        if m.dtype != mask.dtype or bad.any():
+            viol.append({'site': 'C01:%s:%s' % (case['cls'], k), 'kind': 'blend', 'case': case,
+                         'observed': 'dtype %s, %d voxels hold values that are no input mask value, e.g. %s' % (m.dtype, int(bad.sum()), np.asarray(m)[bad][:4].tolist()),
+                         'expected': 'the value of an input mask voxel (or the fill value) in every voxel'})
+            return
+
+
+def blend_cases(rng):
+    out = []
+    for order in (1, 3):
+        shape = rng.sample([8, 9, 10, 12], 3)
+        H, W, D = shape
+        t = [rng.randint(5, 14), rng.randint(5, 14), rng.randint(5, 14)]
+        cfgs = [('Resize', dict(height=t[0], width=t[1], depth=t[2]), None),
+                ('RandomScale', dict(scale_limit=(0.2, 0.4)), None),
+                ('LongestMaxSize', dict(max_size=max(shape) + 3), None),
+                ('SmallestMaxSize', dict(max_size=min(shape) + 2), None),
+                ('RandomSizedCrop', dict(min_max_height=(H // 2, H - 1), height=t[0], width=t[1], depth=t[2], w2h_ratio=0.5, d2h_ratio=0.5), None),
+                ('RandomSizedBBoxSafeCrop', dict(height=t[0], width=t[1], depth=t[2]), 'bboxes'),
+                ('Rotate', dict(limit=(20, 40), border_mode='constant', value=0, mask_value=0), None),
+                ('ShiftScaleRotate', dict(border_mode='constant', value=0, mask_value=0), None),
+                ('CropAndPad', dict(px=(-1, 2, 1, -2, 1, 1), keep_size=True, pad_cval=0, pad_cval_mask=0), None),
+                ('SetPixelSpacing', dict(space_x=0.5, space_y=0.6), 'dicom')]
+        for cls, args, needs in cfgs:
+            out.append({'cls': cls, 'args': dict(args, interpolation=order), 'needs': needs, 'shape': shape, 'seed': R.pick_seed(rng)})
+    return out
+
+
 def run(seed=0, tier='quick', hints=None, broken=False):
     rng = random.Random(seed * 7919 + 1)
     n = 5 if tier == 'quick' else 120
@@ -91,11 +149,19 @@ def run(seed=0, tier='quick', hints=None, broken=False):
             check('CropAndPad-keep_size', [k], dict(case, channels=None), viol, lattice=False)
             evals += 2
             seen.add(('CropAndPad-sweep', repr(c['args'].get('px', c['args'].get('percent')))))
+    for rep in range(1 if tier == 'quick' else 10):
+        for case in blend_cases(rng):
+            check_blend(case, viol)
+            evals += 1
+            seen.add(('blend', case['cls'], case['args']['interpolation']))
     return {'violations': viol, 'info': {'evaluations': evals, 'distinct': len(seen),
                                          'what': 'mask / masks / additional targets vs image path on labelled volumes'}}
 
 
 def replay(v):
     viol = []
+    if v.get('kind') == 'blend':
+        check_blend(v['case'], viol)
+        return bool(viol)
     check(v['name'], v['pipeline'], v['case'], viol, lattice=v.get('lattice', True))
     return bool(viol)
